@@ -350,4 +350,925 @@ Section Kernel.
     rewrite (CW t Htk), (CW label Hlk), (Hocw t Htk), (Hocw label Hlk), (Hicw t Htk), (Hicw label Hlk).
     rewrite (Hsl i Hi). unfold csum, membership_T_dot, Fk. ring.
   Qed.
+
+  (** ** One node *)
+  Lemma cluster_move labels (arr v : list Q) i best :
+    (i < n)%nat -> length labels = n -> length arr = k ->
+    (forall c, (c < k)%nat -> nthq arr c == csum labels v c) ->
+    let label := lab labels i in
+    (label < k)%nat -> (best < k)%nat -> best <> label ->
+    let x := nthq v i in
+    let arr1 := upd arr label (qn (nthq arr label - x)) in
+    let arr2 := upd arr1 best (qn (nthq arr1 best + x)) in
+    length arr2 = k /\
+    forall c, (c < k)%nat -> nthq arr2 c == csum (upd labels i best) v c.
+  Proof.
+    intros Hi Hlen Hal Harr label Hlk Hbk Hne x arr1 arr2.
+    split; [unfold arr2, arr1; rewrite !upd_length; exact Hal|].
+    intros c Hc. rewrite (csum_move labels v i best c Hi Hlen). fold label. fold x.
+    unfold arr2. destruct (Nat.eq_dec c best) as [->|Hcb].
+    - rewrite nthq_upd_same by (unfold arr1; rewrite upd_length; lia).
+      rewrite qn_eq. unfold arr1. rewrite nthq_upd_other by exact Hne.
+      rewrite (Harr best Hbk). rewrite Nat.eqb_refl.
+      rewrite (ind_false (Nat.eqb label best)) by (apply Nat.eqb_neq; congruence). cbn [ind]. ring.
+    - rewrite nthq_upd_other by exact Hcb. unfold arr1.
+      rewrite (ind_false (Nat.eqb best c)) by (apply Nat.eqb_neq; congruence).
+      destruct (Nat.eq_dec c label) as [->|Hcl].
+      + rewrite nthq_upd_same by lia. rewrite qn_eq, (Harr label Hlk). rewrite Nat.eqb_refl. cbn [ind]. ring.
+      + rewrite nthq_upd_other by exact Hcl. rewrite (Harr c Hc).
+        rewrite (ind_false (Nat.eqb label c)) by (apply Nat.eqb_neq; congruence). cbn [ind]. ring.
+  Qed.
+
+  Definition obj (labels : list nat) : Q := objective g ows iws res labels.
+
+  Definition step_ok (st st' : kstate) (i : nat) : Prop :=
+    kinv st' /\
+    k_inc_pass st' - k_inc_pass st == obj (k_labels st') - obj (k_labels st) /\
+    k_inc_pass st <= k_inc_pass st' /\
+    (k_labels st' = k_labels st \/
+     exists j w, In (j, w) (wrow_of g i) /\ lab (k_labels st) j <> lab (k_labels st) i /\
+                 k_labels st' = upd (k_labels st) i (lab (k_labels st) j)).
+
+  Lemma node_step_ok st i : kinv st -> (i < n)%nat -> step_ok st (node_step g ows iws sls res st i) i.
+  Proof.
+    intros Hinv Hi. pose proof Hinv as [Hlen Hol Hil Hcl Hlt Hocw Hicw Hcw].
+    unfold step_ok, node_step. cbv zeta.
+    set (labels := k_labels st) in *. set (label := nthn labels i).
+    assert (Hlabel : label = lab labels i) by reflexivity.
+    assert (Hlk : (label < k)%nat) by (rewrite Hlabel; apply Hlt; exact Hi).
+    assert (Hrow : forall j w, In (j, w) (wrow_of g i) -> (lab labels j < length (k_cw st))%nat).
+    { intros j w Hin. rewrite Hcl. apply Hlt. exact (Hwf i j w Hin). }
+    destruct (neighbours_spec labels (wrow_of g i) (k_cw st) Hrow) as [Hl1 [Hsort [Hnb Hcw1]]].
+    set (nb := neighbours labels (wrow_of g i) (k_cw st)) in *.
+    set (cw1 := snd nb) in *. rewrite Hcl in Hl1.
+    remember (set_erase label (fst nb)) as s eqn:Es.
+    assert (Hs_in : forall t, In t s <-> (exists j w, In (j, w) (wrow_of g i) /\ lab labels j = t) /\ t <> label).
+    { intros t. rewrite Es, set_erase_In, Hnb. reflexivity. }
+    assert (Hs_nd : NoDup s) by (rewrite Es; apply set_erase_NoDup, sorted_NoDup; exact Hsort).
+    assert (Hs_lt : forall t, In t s -> (t < k)%nat).
+    { intros t Ht. apply Hs_in in Ht. destruct Ht as [[j [w [Hin <-]]] _]. apply Hlt. exact (Hwf i j w Hin). }
+    assert (Hzero : forall cwF, length cwF = k ->
+                      (forall c, In c s -> nthq cwF c = 0) ->
+                      (forall c, ~ In c s -> nthq cwF c = nthq cw1 c) ->
+                      forall c, (c < k)%nat -> nthq (upd cwF label 0) c == 0).
+    { intros cwF HlF Hz Hnz c Hc. destruct (Nat.eq_dec c label) as [->|Hcl'].
+      - rewrite nthq_upd_same by lia. reflexivity.
+      - rewrite nthq_upd_other by exact Hcl'.
+        destruct (in_dec Nat.eq_dec c s) as [Hin|Hnin].
+        + rewrite (Hz c Hin). reflexivity.
+        + rewrite (Hnz c Hnin). rewrite Hcw1, (Hcw c Hc).
+          rewrite rsum_zero; [ring|]. intros j w Hin.
+          rewrite ind_false; [reflexivity|]. apply Nat.eqb_neq. intros E.
+          apply Hnin. apply Hs_in. split; [exists j, w; split; assumption|exact Hcl']. }
+    destruct s as [|t0 s']; cbv iota beta.
+    - (* no neighbouring cluster *)
+      split; [|split; [|split]].
+      + constructor; cbn [k_labels k_out_cw k_in_cw k_cw]; auto.
+        * rewrite upd_length. exact Hl1.
+        * apply Hzero; auto. intros c [].
+      + cbn [k_inc_pass k_labels]. ring.
+      + cbn [k_inc_pass]. apply Qle_refl.
+      + left. reflexivity.
+    - remember (t0 :: s') as s eqn:Es'.
+      set (ow := nthq ows i). set (iw := nthq iws i).
+      set (dlt0 := delta_leave res ow iw (nthq sls i) (k_out_cw st) (k_in_cw st) cw1 label).
+      set (a0 := {| t_cw := cw1; t_best := 0; t_label := label; t_margin := k_margin st |}).
+      destruct (tgt_loop ow iw (qn dlt0) (k_out_cw st) (k_in_cw st) cw1 label s s a0 Hs_nd (fun t H => H))
+        as [Hgood [Hlts [Hz Hnz]]].
+      { intros t Ht. cbn [a0 t_cw]. split; [rewrite Hl1; apply Hs_lt; exact Ht|reflexivity]. }
+      { left. split; reflexivity. }
+      set (ts := fold_left (tgt_step res ow iw (qn dlt0) (k_out_cw st) (k_in_cw st)) s a0) in *.
+      cbn [a0 t_cw] in Hlts, Hnz.
+      destruct (Nat.eqb_spec (t_label ts) label) as [Eb|Eb].
+      + (* stays *)
+        split; [|split; [|split]].
+        * constructor; cbn [k_labels k_out_cw k_in_cw k_cw]; auto.
+          -- rewrite upd_length, Hlts. exact Hl1.
+          -- apply Hzero; auto. rewrite Hlts. exact Hl1.
+        * cbn [k_inc_pass k_labels]. ring.
+        * cbn [k_inc_pass]. apply Qle_refl.
+        * left. reflexivity.
+      + (* moves to t_label ts *)
+        destruct Hgood as [[Hc _]|[Hbin [Hbest Hpos]]]; [contradiction|].
+        set (best := t_label ts) in *.
+        assert (Hbk : (best < k)%nat) by (apply Hs_lt; exact Hbin).
+        assert (Hgain : t_best ts == obj (upd labels i best) - obj labels).
+        { rewrite Hbest.
+          transitivity (delta_local res ow iw dlt0 (k_out_cw st) (k_in_cw st) cw1 best).
+          { unfold delta_local. rewrite qn_eq. reflexivity. }
+          exact (delta_is_gain st i best Hinv Hi Eb Hbk). }
+        destruct (cluster_move labels (k_out_cw st) ows i best Hi Hlen Hol Hocw Hlk Hbk Eb) as [Ho1 Ho2].
+        destruct (cluster_move labels (k_in_cw st) iws i best Hi Hlen Hil Hicw Hlk Hbk Eb) as [Hi1 Hi2].
+        split; [|split; [|split]].
+        * constructor; cbn [k_labels k_out_cw k_in_cw k_cw].
+          -- rewrite upd_length. exact Hlen.
+          -- exact Ho1.
+          -- exact Hi1.
+          -- rewrite upd_length, Hlts. exact Hl1.
+          -- intros x Hx. rewrite lab_upd by lia. destruct (Nat.eqb x i); [exact Hbk|apply Hlt; exact Hx].
+          -- exact Ho2.
+          -- exact Hi2.
+          -- apply Hzero; auto. rewrite Hlts. exact Hl1.
+        * cbn [k_inc_pass k_labels]. rewrite qn_eq, Hgain. fold labels. ring.
+        * cbn [k_inc_pass]. rewrite qn_eq. lra.
+        * right. apply Hs_in in Hbin. destruct Hbin as [[j [w [Hin Hj]]] _].
+          exists j, w. split; [exact Hin|]. split; [rewrite Hj; exact Eb|].
+          cbn [k_labels]. rewrite Hj. reflexivity.
+  Qed.
+
+  (** ** Connectivity invariant: equal label implies connected *)
+  Definition cc_inv (labels : list nat) : Prop :=
+    forall a b, (a < n)%nat -> (b < n)%nat -> lab labels a = lab labels b -> connected g a b.
+
+  Lemma cc_move labels i j w :
+    length labels = n -> (i < n)%nat -> In (j, w) (wrow_of g i) ->
+    lab labels j <> lab labels i ->
+    cc_inv labels -> cc_inv (upd labels i (lab labels j)).
+  Proof.
+    intros Hlen Hi Hin Hne Hcc a b Ha Hb. rewrite !lab_upd by lia.
+    assert (Hj : (j < n)%nat) by exact (Hwf i j w Hin).
+    assert (Hij : connected g i j) by (apply conn_edge; exists w; exact Hin).
+    destruct (Nat.eqb_spec a i) as [->|Hai]; destruct (Nat.eqb_spec b i) as [->|Hbi]; intros E.
+    - apply conn_refl.
+    - apply conn_trans with j; [exact Hij|]. apply Hcc; assumption.
+    - apply conn_sym. apply conn_trans with j; [exact Hij|]. apply Hcc; auto.
+    - apply Hcc; assumption.
+  Qed.
+
+  Lemma kinv_same st st' :
+    k_labels st' = k_labels st -> k_out_cw st' = k_out_cw st -> k_in_cw st' = k_in_cw st ->
+    k_cw st' = k_cw st -> kinv st -> kinv st'.
+  Proof.
+    intros E1 E2 E3 E4 [H1 H2 H3 H4 H5 H6 H7 H8].
+    constructor; rewrite ?E1, ?E2, ?E3, ?E4; assumption.
+  Qed.
+
+  (** ** One pass and the optimisation loop *)
+  Definition run_ok (st st' : kstate) : Prop :=
+    kinv st' /\
+    k_inc_pass st' - k_inc_pass st == obj (k_labels st') - obj (k_labels st) /\
+    k_inc_pass st <= k_inc_pass st' /\
+    (cc_inv (k_labels st) -> cc_inv (k_labels st')).
+
+  Lemma nodes_fold_ok : forall l st,
+    kinv st -> (forall i, In i l -> (i < n)%nat) ->
+    run_ok st (fold_left (node_step g ows iws sls res) l st).
+  Proof.
+    induction l as [|i l IH]; intros st Hinv Hl; cbn [fold_left].
+    - split; [exact Hinv|]. split; [ring|]. split; [apply Qle_refl|auto].
+    - assert (Hi : (i < n)%nat) by (apply Hl; left; reflexivity).
+      destruct (node_step_ok st i Hinv Hi) as [K1 [K2 [K3 K4]]].
+      set (st1 := node_step g ows iws sls res st i) in *.
+      destruct (IH st1 K1 (fun x H => Hl x (or_intror H))) as [R1 [R2 [R3 R4]]].
+      split; [exact R1|]. split; [|split].
+      + lra.
+      + lra.
+      + intros Hcc. apply R4. destruct K4 as [->|[j [w [Hin [Hne ->]]]]]; [exact Hcc|].
+        apply (cc_move _ i j w); auto. exact (ki_labels _ Hinv).
+  Qed.
+
+  Lemma one_pass_ok st :
+    kinv st ->
+    let st' := one_pass g ows iws sls res st in
+    kinv st' /\
+    k_inc_pass st' == obj (k_labels st') - obj (k_labels st) /\
+    0 <= k_inc_pass st' /\
+    (cc_inv (k_labels st) -> cc_inv (k_labels st')).
+  Proof.
+    intros Hinv. unfold one_pass.
+    set (st0 := {| k_labels := k_labels st; k_out_cw := k_out_cw st; k_in_cw := k_in_cw st;
+                   k_cw := k_cw st; k_inc_pass := 0; k_margin := k_margin st |}).
+    assert (H0 : kinv st0) by (apply (kinv_same st st0); auto).
+    destruct (nodes_fold_ok (seq 0 (length (k_labels st))) st0 H0) as [R1 [R2 [R3 R4]]].
+    { intros i Hin. apply in_seq in Hin. rewrite (ki_labels _ Hinv) in Hin. lia. }
+    cbn [st0 k_inc_pass k_labels] in R2, R3, R4.
+    split; [exact R1|]. split; [|split; [exact R3|exact R4]].
+    lra.
+  Qed.
+
+  Lemma opt_loop_ok tol : forall fuel st inc st' inc',
+    kinv st ->
+    opt_loop fuel g ows iws sls res tol st inc = Some (st', inc') ->
+    kinv st' /\
+    inc' - inc == obj (k_labels st') - obj (k_labels st) /\
+    inc <= inc' /\
+    (cc_inv (k_labels st) -> cc_inv (k_labels st')).
+  Proof.
+    induction fuel as [|fuel IH]; intros st inc st' inc' Hinv H; cbn [opt_loop] in H; [discriminate|].
+    destruct (one_pass_ok st Hinv) as [P1 [P2 [P3 P4]]].
+    set (st1 := one_pass g ows iws sls res st) in *.
+    set (st2 := {| k_labels := k_labels st1; k_out_cw := k_out_cw st1; k_in_cw := k_in_cw st1;
+                   k_cw := k_cw st1; k_inc_pass := k_inc_pass st1;
+                   k_margin := mmin_tol (k_margin st1) (k_inc_pass st1) tol |}) in *.
+    assert (H2 : kinv st2) by (apply (kinv_same st1 st2); auto).
+    destruct (Qle_bool (k_inc_pass st1) tol).
+    - assert (E1 : st' = st2) by congruence.
+      assert (E2 : inc' = qn (inc + k_inc_pass st1)) by congruence.
+      subst st' inc'. split; [exact H2|]. cbn [st2 k_labels].
+      split; [rewrite qn_eq; lra|]. split; [rewrite qn_eq; lra|exact P4].
+    - destruct (IH st2 (qn (inc + k_inc_pass st1)) st' inc' H2 H) as [R1 [R2 [R3 R4]]].
+      cbn [st2 k_labels] in R2, R4. rewrite qn_eq in R2, R3.
+      split; [exact R1|]. split; [|split].
+      + lra.
+      + lra.
+      + intros Hcc. apply R4, P4, Hcc.
+  Qed.
 End Kernel.
+
+(** * Aggregation *)
+
+Lemma agg_sum k n (l : nat -> nat) (F D : nat -> nat -> Q) :
+  (forall i, (i < n)%nat -> (l i < k)%nat) ->
+  qsum2 k k (fun c c' => qsum2 n n (fun i j => ind (Nat.eqb (l i) c) * ind (Nat.eqb (l j) c') * F i j) * D c c')
+  == qsum2 n n (fun i j => F i j * D (l i) (l j)).
+Proof.
+  intros Hl. unfold qsum2.
+  transitivity (qsum k (fun c => qsum n (fun i => ind (Nat.eqb (l i) c) *
+                  qsum k (fun c' => qsum n (fun j => ind (Nat.eqb (l j) c') * (F i j * D c c')))))).
+  - apply qsum_ext. intros c _.
+    transitivity (qsum k (fun c' => qsum n (fun i => ind (Nat.eqb (l i) c) *
+                    qsum n (fun j => ind (Nat.eqb (l j) c') * (F i j * D c c'))))).
+    + apply qsum_ext. intros c' _. rewrite <- qsum_scal_r. apply qsum_ext. intros i _.
+      rewrite <- qsum_scal_r, <- qsum_scal. apply qsum_ext. intros j _. ring.
+    + rewrite qsum_swap. apply qsum_ext. intros i _. apply qsum_scal.
+  - rewrite (qsum_by_label k n l
+               (fun i c => qsum k (fun c' => qsum n (fun j => ind (Nat.eqb (l j) c') * (F i j * D c c')))) Hl).
+    apply qsum_ext. intros i _.
+    exact (qsum_by_label k n l (fun j c' => F i j * D (l i) c') Hl).
+Qed.
+
+Lemma existsb_false_iff {A} (f : A -> bool) l : existsb f l = false <-> forall x, In x l -> f x = false.
+Proof.
+  induction l as [|a t IH]; simpl.
+  - split; [intros _ x []|reflexivity].
+  - rewrite orb_false_iff, IH. split.
+    + intros [Ha Ht] x [<-|Hx]; auto.
+    + intros H. split; [apply H; left; reflexivity|intros x Hx; apply H; right; exact Hx].
+Qed.
+
+Lemma rsum_map_filter_seq (p : nat -> bool) (f : nat -> Q) k h :
+  rsum (map (fun j => (j, f j)) (filter p (seq 0 k))) h == qsum k (fun j => ind (p j) * (f j * h j)).
+Proof.
+  induction k as [|k IH]; [reflexivity|].
+  rewrite seq_S, filter_app, map_app, rsum_app, IH. cbn [qsum]. apply Qplus_comp; [reflexivity|].
+  simpl. destruct (p k); simpl; ring.
+Qed.
+
+Lemma wrow_of_map_seq (F : nat -> wrow) k c : (c < k)%nat -> wrow_of (map F (seq 0 k)) c = F c.
+Proof.
+  intros H. unfold wrow_of. rewrite (nth_indep _ [] (F 0%nat)) by (rewrite map_length, seq_length; exact H).
+  rewrite map_nth, seq_nth by exact H. reflexivity.
+Qed.
+
+Lemma wrow_of_overflow g i : (length g <= i)%nat -> wrow_of g i = [].
+Proof. intros H. unfold wrow_of. apply nth_overflow. exact H. Qed.
+
+Lemma lab_map (f : nat -> nat) labels i :
+  (i < length labels)%nat -> lab (map f labels) i = f (lab labels i).
+Proof.
+  intros H. unfold lab, nthn. rewrite (nth_indep _ 0%nat (f 0%nat)) by (rewrite map_length; exact H).
+  apply map_nth.
+Qed.
+
+Section Aggregate.
+  Context (g : wgraph) (labels : list nat) (k : nat).
+  Let n := length g.
+  Context (Hwf : wf_wgraph g) (Hlen : length labels = n).
+  Context (Hlt : forall i, (i < n)%nat -> (lab labels i < k)%nat).
+
+  Lemma agg_length : length (aggregate_graph g labels k) = k.
+  Proof. unfold aggregate_graph. rewrite map_length, seq_length. reflexivity. Qed.
+
+  Lemma agg_wf : wf_wgraph (aggregate_graph g labels k).
+  Proof.
+    intros c c' w Hin. rewrite agg_length.
+    destruct (Nat.lt_ge_cases c k) as [Hc|Hc].
+    - unfold aggregate_graph in Hin. rewrite wrow_of_map_seq in Hin by exact Hc.
+      apply in_map_iff in Hin. destruct Hin as [x [E Hx]]. injection E as <- _.
+      apply filter_In in Hx. destruct Hx as [Hx _]. apply in_seq in Hx. lia.
+    - rewrite wrow_of_overflow in Hin by (rewrite agg_length; exact Hc). destruct Hin.
+  Qed.
+
+  Lemma agg_entry_sum c c' :
+    agg_entry g labels c c'
+    == qsum2 n n (fun i j => ind (Nat.eqb (lab labels i) c) * ind (Nat.eqb (lab labels j) c') * entry g i j).
+  Proof.
+    unfold agg_entry, membership_T_dot, adj_dot_membership, qsum2. fold n.
+    apply qsum_ext. intros i _. rewrite (rsum_row_entries g i _ Hwf). fold n.
+    rewrite <- qsum_scal. apply qsum_ext. intros j _. ring.
+  Qed.
+
+  Lemma agg_not_stored c c' : agg_stored g labels c c' = false -> agg_entry g labels c c' == 0.
+  Proof.
+    intros H. unfold agg_stored in H. rewrite existsb_false_iff in H.
+    unfold agg_entry, membership_T_dot. apply qsum_zero. intros i Hi.
+    specialize (H i). rewrite in_seq in H. specialize (H (conj (Nat.le_0_l i) Hi)).
+    apply andb_false_iff in H. destruct H as [H|H].
+    - rewrite H. simpl. ring.
+    - rewrite existsb_false_iff in H. unfold adj_dot_membership.
+      rewrite rsum_zero; [ring|]. intros j w Hin. specialize (H (j, w) Hin). simpl in H.
+      rewrite H. reflexivity.
+  Qed.
+
+  Lemma agg_entry_ok c c' :
+    (c < k)%nat -> (c' < k)%nat -> entry (aggregate_graph g labels k) c c' == agg_entry g labels c c'.
+  Proof.
+    intros Hc Hc'. unfold entry, aggregate_graph. rewrite wrow_of_map_seq by exact Hc.
+    rewrite (rsum_map_filter_seq (agg_stored g labels c) (fun c'' => qn (agg_entry g labels c c'')) k).
+    transitivity (qsum k (fun j => ind (Nat.eqb j c') * (ind (agg_stored g labels c j) * qn (agg_entry g labels c j)))).
+    { apply qsum_ext. intros j _. ring. }
+    rewrite (qsum_ind k c' (fun j => ind (agg_stored g labels c j) * qn (agg_entry g labels c j)) Hc').
+    rewrite qn_eq. destruct (agg_stored g labels c c') eqn:E; simpl; [ring|].
+    rewrite (agg_not_stored c c' E). ring.
+  Qed.
+
+  Lemma agg_symmetric : wsymmetric g -> wsymmetric (aggregate_graph g labels k).
+  Proof.
+    intros Hsym c c' Hc Hc'. rewrite agg_length in Hc, Hc'.
+    rewrite (agg_entry_ok c c' Hc Hc'), (agg_entry_ok c' c Hc' Hc). rewrite !agg_entry_sum.
+    unfold qsum2. rewrite qsum_swap. apply qsum_ext. intros i Hi. apply qsum_ext. intros j Hj.
+    rewrite (Hsym j i Hj Hi). ring.
+  Qed.
+
+  Lemma cluster_sums_length v : length (cluster_sums k labels v) = k.
+  Proof. unfold cluster_sums. rewrite map_length, seq_length. reflexivity. Qed.
+
+  Lemma cluster_sums_nth v c :
+    (c < k)%nat -> nthq (cluster_sums k labels v) c == membership_T_dot n labels (nthq v) c.
+  Proof.
+    intros Hc. unfold cluster_sums. rewrite nthq_map_seq by exact Hc. rewrite qn_eq, Hlen. reflexivity.
+  Qed.
+
+  (** aggregate_preserves_objective *)
+  Lemma aggregate_objective ows iws res l2 :
+    objective (aggregate_graph g labels k) (cluster_sums k labels ows) (cluster_sums k labels iws) res l2
+    == objective g ows iws res (map (nthn l2) labels).
+  Proof.
+    unfold objective. rewrite agg_length. fold n.
+    fold (qsum2 k k (fun c c' => (entry (aggregate_graph g labels k) c c'
+             - res * nthq (cluster_sums k labels ows) c * nthq (cluster_sums k labels iws) c') * delta l2 c c')).
+    fold (qsum2 n n (fun i j => (entry g i j - res * nthq ows i * nthq iws j) * delta (map (nthn l2) labels) i j)).
+    transitivity (qsum2 n n (fun i j => (entry g i j - res * nthq ows i * nthq iws j) * delta l2 (lab labels i) (lab labels j))).
+    2:{ apply qsum2_ext. intros i j Hi Hj. unfold delta.
+        rewrite !lab_map by (rewrite Hlen; assumption). reflexivity. }
+    rewrite <- (agg_sum k n (lab labels) (fun i j => entry g i j - res * nthq ows i * nthq iws j)
+                        (fun c c' => delta l2 c c') Hlt).
+    apply qsum2_ext. intros c c' Hc Hc'. apply Qmult_comp; [|reflexivity].
+    rewrite (agg_entry_ok c c' Hc Hc'), agg_entry_sum.
+    rewrite (cluster_sums_nth ows c Hc), (cluster_sums_nth iws c' Hc').
+    unfold membership_T_dot.
+    transitivity (qsum2 n n (fun i j => ind (Nat.eqb (lab labels i) c) * ind (Nat.eqb (lab labels j) c') * entry g i j)
+                  - res * qsum2 n n (fun i j => (ind (Nat.eqb (lab labels i) c) * nthq ows i) * (ind (Nat.eqb (lab labels j) c') * nthq iws j))).
+    { apply Qplus_comp; [reflexivity|]. apply Qopp_comp.
+      rewrite <- Qmult_assoc. apply Qmult_comp; [reflexivity|].
+      unfold qsum2. rewrite <- qsum_scal_r. apply qsum_ext. intros i _. symmetry. apply qsum_scal. }
+    rewrite <- qsum2_scal, <- qsum2_minus. apply qsum2_ext. intros i j _ _. ring.
+  Qed.
+End Aggregate.
+
+(** * np.unique(labels, return_inverse=True) *)
+
+Lemma distinct_fold l : forall s,
+  StronglySorted lt s ->
+  StronglySorted lt (fold_left (fun s x => set_insert x s) l s) /\
+  (forall x, In x (fold_left (fun s x => set_insert x s) l s) <-> In x s \/ In x l).
+Proof.
+  induction l as [|a l IH]; intros s Hs; cbn [fold_left].
+  - split; [exact Hs|]. intros x. simpl. tauto.
+  - destruct (IH (set_insert a s) (set_insert_sorted a s Hs)) as [H1 H2]. split; [exact H1|].
+    intros x. rewrite H2, set_insert_In. simpl. intuition congruence.
+Qed.
+
+Lemma distinct_sorted_In l x : In x (distinct_sorted l) <-> In x l.
+Proof.
+  unfold distinct_sorted. destruct (distinct_fold l [] (SSorted_nil lt)) as [_ H].
+  rewrite H. simpl. tauto.
+Qed.
+
+Lemma index_of_inj a b u : In a u -> index_of a u = index_of b u -> a = b.
+Proof.
+  induction u as [|y t IH]; intros Hin E; [destruct Hin|]. simpl in E.
+  destruct (Nat.eqb_spec y a) as [Ea|Ea]; destruct (Nat.eqb_spec y b) as [Eb|Eb]; try congruence.
+  destruct Hin as [Hy|Hin]; [congruence|]. apply IH; [exact Hin|]. congruence.
+Qed.
+
+Lemma unique_inverse_length l : length (unique_inverse l) = length l.
+Proof. unfold unique_inverse. apply map_length. Qed.
+
+Lemma unique_inverse_pattern l x y :
+  (x < length l)%nat -> (y < length l)%nat ->
+  Nat.eqb (lab (unique_inverse l) x) (lab (unique_inverse l) y) = Nat.eqb (lab l x) (lab l y).
+Proof.
+  intros Hx Hy. unfold unique_inverse. rewrite !lab_map by assumption.
+  destruct (Nat.eqb_spec (lab l x) (lab l y)) as [E|E].
+  - rewrite E. apply Nat.eqb_refl.
+  - apply Nat.eqb_neq. intros E'. apply E. apply (index_of_inj _ _ (distinct_sorted l)); [|exact E'].
+    apply distinct_sorted_In. unfold lab, nthn. apply nth_In. exact Hx.
+Qed.
+
+(** * One optimisation (Louvain._optimize / Leiden._optimize) *)
+
+Lemma diagonal_nth g i : (i < length g)%nat -> nthq (diagonal g) i == entry g i i.
+Proof. intros H. unfold diagonal. rewrite nthq_map_seq by exact H. apply qn_eq. Qed.
+
+Lemma optimize_ok fuel g ows iws res tol labels ocw icw mg st inc :
+  wf_wgraph g -> wsymmetric g ->
+  length labels = length g -> length ocw = length icw ->
+  (forall x, (x < length g)%nat -> (lab labels x < length ocw)%nat) ->
+  (forall c, (c < length ocw)%nat -> nthq ocw c == csum g labels ows c) ->
+  (forall c, (c < length ocw)%nat -> nthq icw c == csum g labels iws c) ->
+  optimize fuel g ows iws res tol labels ocw icw mg = Some (st, inc) ->
+  length (k_labels st) = length g /\
+  (forall x, (x < length g)%nat -> (lab (k_labels st) x < length ocw)%nat) /\
+  inc == objective g ows iws res (k_labels st) - objective g ows iws res labels /\
+  0 <= inc /\
+  (cc_inv g labels -> cc_inv g (k_labels st)).
+Proof.
+  intros Hwf Hsym Hlen Hoi Hlt Hocw Hicw H. unfold optimize in H.
+  set (st0 := {| k_labels := labels; k_out_cw := ocw; k_in_cw := icw;
+                 k_cw := repeat 0 (length ocw); k_inc_pass := 0; k_margin := mg |}) in H.
+  assert (H0 : kinv g ows iws (length ocw) st0).
+  { constructor; cbn [st0 k_labels k_out_cw k_in_cw k_cw]; auto.
+    - apply repeat_length.
+    - intros c Hc. rewrite nthq_repeat by exact Hc. reflexivity. }
+  destruct (opt_loop_ok g ows iws (diagonal g) res (length ocw) Hwf Hsym
+              (fun i Hi => diagonal_nth g i Hi) tol fuel st0 0 st inc H0 H) as [K1 [K2 [K3 K4]]].
+  cbn [st0 k_labels] in K2, K4.
+  split; [exact (ki_labels _ _ _ _ _ K1)|]. split; [exact (ki_lt _ _ _ _ _ K1)|].
+  split; [unfold obj in K2; lra|]. split; [exact K3|exact K4].
+Qed.
+
+Lemma lab_seq n x : (x < n)%nat -> lab (seq 0 n) x = x.
+Proof. intros H. unfold lab, nthn. rewrite seq_nth by exact H. reflexivity. Qed.
+
+Lemma csum_singletons g v c : (c < length g)%nat -> nthq v c == csum g (seq 0 (length g)) v c.
+Proof.
+  intros Hc. unfold csum, membership_T_dot.
+  rewrite <- (qsum_ind (length g) c (nthq v) Hc). apply qsum_ext. intros i Hi.
+  rewrite lab_seq by exact Hi. reflexivity.
+Qed.
+
+Lemma cc_inv_singletons g : cc_inv g (seq 0 (length g)).
+Proof. intros a b Ha Hb. rewrite !lab_seq by assumption. intros ->. apply conn_refl. Qed.
+
+(** * Connectivity through aggregation *)
+
+Lemma agg_connected g labels k :
+  wf_wgraph g -> cc_inv g labels ->
+  forall C C', connected (aggregate_graph g labels k) C C' ->
+    (forall a, (a < length g)%nat -> lab labels a = C ->
+       exists b, (b < length g)%nat /\ lab labels b = C' /\ connected g a b) /\
+    (forall b, (b < length g)%nat -> lab labels b = C' ->
+       exists a, (a < length g)%nat /\ lab labels a = C /\ connected g b a).
+Proof.
+  intros Hwf Hcc C C' H. induction H as [C|C C' He|C C' H IH|C C' C'' H1 IH1 H2 IH2].
+  - split; intros a Ha E; exists a; (split; [exact Ha|split; [exact E|apply conn_refl]]).
+  - destruct He as [w Hin].
+    assert (Hst : exists i j w', (i < length g)%nat /\ lab labels i = C /\ In (j, w') (wrow_of g i) /\ lab labels j = C').
+    { destruct (Nat.lt_ge_cases C k) as [Hc|Hc].
+      - unfold aggregate_graph in Hin. rewrite wrow_of_map_seq in Hin by exact Hc.
+        apply in_map_iff in Hin. destruct Hin as [x [E Hx]]. injection E as -> _.
+        apply filter_In in Hx. destruct Hx as [_ Hx]. unfold agg_stored in Hx.
+        apply existsb_exists in Hx. destruct Hx as [i [Hi Hx]]. apply in_seq in Hi.
+        apply andb_true_iff in Hx. destruct Hx as [Hx1 Hx2]. apply Nat.eqb_eq in Hx1.
+        apply existsb_exists in Hx2. destruct Hx2 as [[j w'] [Hj Hx2]]. simpl in Hx2. apply Nat.eqb_eq in Hx2.
+        exists i, j, w'. repeat split; auto. lia.
+      - rewrite wrow_of_overflow in Hin; [destruct Hin|].
+        unfold aggregate_graph. rewrite map_length, seq_length. exact Hc. }
+    destruct Hst as [i [j [w' [Hi [Hli [Hij Hlj]]]]]].
+    assert (Hj : (j < length g)%nat) by exact (Hwf i j w' Hij).
+    assert (Cij : connected g i j) by (apply conn_edge; exists w'; exact Hij).
+    split.
+    + intros a Ha E. exists j. split; [exact Hj|]. split; [exact Hlj|].
+      apply conn_trans with i; [|exact Cij]. apply Hcc; auto. congruence.
+    + intros b Hb E. exists i. split; [exact Hi|]. split; [exact Hli|].
+      apply conn_trans with j; [|apply conn_sym; exact Cij]. apply Hcc; auto. congruence.
+  - destruct IH as [I1 I2]. split; [exact I2|exact I1].
+  - destruct IH1 as [A1 A2]. destruct IH2 as [B1 B2]. split.
+    + intros a Ha E. destruct (A1 a Ha E) as [b [Hb [Eb Cab]]]. destruct (B1 b Hb Eb) as [c [Hc [Ec Cbc]]].
+      exists c. split; [exact Hc|]. split; [exact Ec|]. apply conn_trans with b; assumption.
+    + intros c Hc E. destruct (B2 c Hc E) as [b [Hb [Eb Ccb]]]. destruct (A2 b Hb Eb) as [a [Ha [Ea Cba]]].
+      exists a. split; [exact Ha|]. split; [exact Ea|]. apply conn_trans with b; assumption.
+Qed.
+
+Lemma agg_connected_members g labels k a b :
+  wf_wgraph g -> cc_inv g labels -> (a < length g)%nat -> (b < length g)%nat ->
+  connected (aggregate_graph g labels k) (lab labels a) (lab labels b) -> connected g a b.
+Proof.
+  intros Hwf Hcc Ha Hb H.
+  destruct (agg_connected g labels k Hwf Hcc _ _ H) as [A _].
+  destruct (A a Ha eq_refl) as [b' [Hb' [E C]]].
+  apply conn_trans with b'; [exact C|]. apply Hcc; assumption.
+Qed.
+
+Lemma cc_inv_pattern g labels labels' :
+  (forall x y, (x < length g)%nat -> (y < length g)%nat ->
+     Nat.eqb (lab labels' x) (lab labels' y) = Nat.eqb (lab labels x) (lab labels y)) ->
+  cc_inv g labels -> cc_inv g labels'.
+Proof.
+  intros H Hcc a b Ha Hb E. apply Hcc; auto. apply Nat.eqb_eq. rewrite <- (H a b Ha Hb). apply Nat.eqb_eq. exact E.
+Qed.
+
+Lemma objective_pattern g ows iws res labels labels' :
+  (forall x y, (x < length g)%nat -> (y < length g)%nat ->
+     Nat.eqb (lab labels' x) (lab labels' y) = Nat.eqb (lab labels x) (lab labels y)) ->
+  objective g ows iws res labels' == objective g ows iws res labels.
+Proof. intros H. rewrite !objective_objF. apply objF_pattern. exact H. Qed.
+
+Lemma objective_ext g ows iws res labels labels' :
+  (forall x, (x < length g)%nat -> lab labels' x = lab labels x) ->
+  objective g ows iws res labels' == objective g ows iws res labels.
+Proof. intros H. rewrite !objective_objF. apply objF_ext. exact H. Qed.
+
+(** * The outer loop of Louvain.fit *)
+
+Definition log_total (log : list logline) : Q := sumq (map l_increase log).
+
+Lemma log_total_app log x : log_total (log ++ [x]) == log_total log + l_increase x.
+Proof. unfold log_total. rewrite map_app, sumq_app. simpl. ring. Qed.
+
+Definition log_nonneg (log : list logline) : Prop := forall x, In x log -> 0 <= l_increase x.
+
+Section Levels.
+  Context (g0 : wgraph) (ows0 iws0 : list Q) (res : Q).
+  Let n0 := length g0.
+
+  Record level_inv (g : wgraph) (ows iws : list Q) (membership : list nat) : Prop := mk_level {
+    lv_wf : wf_wgraph g;
+    lv_sym : wsymmetric g;
+    lv_ows : length ows = length g;
+    lv_iws : length iws = length g;
+    lv_mem_len : length membership = n0;
+    lv_mem_lt : forall u, (u < n0)%nat -> (lab membership u < length g)%nat;
+    lv_obj : forall l2, objective g ows iws res l2 == objective g0 ows0 iws0 res (map (nthn l2) membership);
+    lv_conn : forall u v, (u < n0)%nat -> (v < n0)%nat ->
+                connected g (lab membership u) (lab membership v) -> connected g0 u v
+  }.
+
+  Lemma level_init :
+    wf_wgraph g0 -> wsymmetric g0 -> length ows0 = n0 -> length iws0 = n0 ->
+    level_inv g0 ows0 iws0 (seq 0 n0).
+  Proof.
+    intros Hwf Hsym Ho Hi. constructor; auto.
+    - apply seq_length.
+    - intros u Hu. rewrite lab_seq by exact Hu. exact Hu.
+    - intros l2. apply objective_ext. intros x Hx. rewrite lab_map by (rewrite seq_length; exact Hx).
+      rewrite lab_seq by exact Hx. reflexivity.
+    - intros u v Hu Hv. rewrite !lab_seq by assumption. auto.
+  Qed.
+
+  (** One aggregation step: from a level and labels on it to the next level. *)
+  Lemma level_step g ows iws membership lu :
+    level_inv g ows iws membership ->
+    length lu = length g -> cc_inv g lu ->
+    let k := n_labels lu in
+    level_inv (aggregate_graph g lu k) (cluster_sums k lu ows) (cluster_sums k lu iws)
+              (map (nthn lu) membership).
+  Proof.
+    intros [Hwf Hsym Ho Hi Hml Hmlt Hobj Hconn] Hlen Hcc k.
+    assert (Hlt : forall i, (i < length g)%nat -> (lab lu i < k)%nat).
+    { intros i Hi'. apply lab_lt_n_labels. lia. }
+    constructor.
+    - apply agg_wf. exact Hlen.
+    - apply agg_symmetric; auto.
+    - rewrite cluster_sums_length, agg_length. reflexivity.
+    - rewrite cluster_sums_length, agg_length. reflexivity.
+    - rewrite map_length. exact Hml.
+    - intros u Hu. rewrite agg_length. rewrite lab_map by (rewrite Hml; exact Hu).
+      apply Hlt. apply Hmlt. exact Hu.
+    - intros l2. rewrite (aggregate_objective g lu k Hwf Hlen Hlt ows iws res l2).
+      rewrite Hobj. apply objective_ext. intros x Hx. fold n0 in Hx.
+      symmetry. transitivity (nthn l2 (nthn lu (lab membership x))).
+      + rewrite (lab_map (nthn l2)) by (rewrite map_length, Hml; exact Hx).
+        rewrite (lab_map (nthn lu)) by (rewrite Hml; exact Hx). reflexivity.
+      + rewrite (lab_map (nthn (map (nthn l2) lu))) by (rewrite Hml; exact Hx).
+        change (nthn (map (nthn l2) lu) (lab membership x)) with (lab (map (nthn l2) lu) (lab membership x)).
+        rewrite lab_map by (rewrite Hlen; apply Hmlt; exact Hx). reflexivity.
+    - intros u v Hu Hv. rewrite !lab_map by (rewrite Hml; assumption). intros Hc.
+      apply Hconn; auto.
+      apply (agg_connected_members g lu k); auto.
+  Qed.
+
+  Lemma louvain_loop_ok kfuel tol_opt tol_agg n_agg : forall fuel g ows iws membership count log mg r,
+    level_inv g ows iws membership ->
+    louvain_loop fuel kfuel res tol_opt tol_agg n_agg g ows iws membership count log mg = MOk r ->
+    log_total (r_log r) - log_total log
+      == objective g0 ows0 iws0 res (r_membership r) - objective g0 ows0 iws0 res membership /\
+    (log_nonneg log -> log_nonneg (r_log r)) /\
+    length (r_membership r) = n0 /\
+    (forall u v, (u < n0)%nat -> (v < n0)%nat ->
+       lab (r_membership r) u = lab (r_membership r) v -> connected g0 u v).
+  Proof.
+    induction fuel as [|fuel IH]; intros g ows iws membership count log mg r Hlv H;
+      cbn [louvain_loop] in H; [discriminate|].
+    pose proof Hlv as [Hwf Hsym Ho Hi Hml Hmlt Hobj Hconn].
+    destruct (optimize kfuel g ows iws res tol_opt (seq 0 (length g)) ows iws mg) as [[st inc]|] eqn:Eopt;
+      [|discriminate].
+    destruct (optimize_ok kfuel g ows iws res tol_opt (seq 0 (length g)) ows iws mg st inc Hwf Hsym)
+      as [Kl [Klt [Kinc [Kpos Kcc]]]]; auto.
+    { apply seq_length. }
+    { congruence. }
+    { intros x Hx. rewrite lab_seq by exact Hx. lia. }
+    { intros c Hc. apply csum_singletons. lia. }
+    { intros c Hc. apply csum_singletons. lia. }
+    specialize (Kcc (cc_inv_singletons g)).
+    set (lu := unique_inverse (k_labels st)) in *.
+    assert (Hlu : length lu = length g) by (unfold lu; rewrite unique_inverse_length; exact Kl).
+    assert (Hpat : forall x y, (x < length g)%nat -> (y < length g)%nat ->
+               Nat.eqb (lab lu x) (lab lu y) = Nat.eqb (lab (k_labels st) x) (lab (k_labels st) y)).
+    { intros x y Hx Hy. apply unique_inverse_pattern; rewrite Kl; assumption. }
+    assert (Hcclu : cc_inv g lu) by (apply (cc_inv_pattern g (k_labels st)); assumption).
+    pose proof (level_step g ows iws membership lu Hlv Hlu Hcclu) as Hnext. cbv zeta in Hnext.
+    set (mem' := map (fun c => nthn lu c) membership) in *.
+    (* the reported increase is the objective difference on the original graph *)
+    assert (Hinc : inc == objective g0 ows0 iws0 res mem' - objective g0 ows0 iws0 res membership).
+    { rewrite Kinc. rewrite <- (objective_pattern g ows iws res (k_labels st) lu Hpat).
+      rewrite (Hobj lu), (Hobj (seq 0 (length g))). apply Qplus_comp; [reflexivity|]. apply Qopp_comp.
+      apply objective_ext. intros x Hx. fold n0 in Hx. rewrite lab_map by (rewrite Hml; exact Hx).
+      change (nthn (seq 0 (length g)) (lab membership x)) with (lab (seq 0 (length g)) (lab membership x)).
+      apply lab_seq. apply Hmlt. exact Hx. }
+    set (entry_ := {| l_count := S count; l_clusters := n_labels lu; l_increase := inc |}) in *.
+    destruct (Nat.eqb (n_labels lu) 1 || Qle_bool inc tol_agg || Z.eqb (Z.of_nat (S count)) n_agg).
+    - assert (Er : r = {| r_membership := mem'; r_log := log ++ [entry_];
+                          r_fit_margin := mmin_tol (k_margin st) inc tol_agg |}) by congruence.
+      subst r. cbn [r_membership r_log].
+      split; [rewrite log_total_app; cbn [entry_ l_increase]; lra|]. split; [|split].
+      + intros Hn x Hx. apply in_app_or in Hx. destruct Hx as [Hx|[<-|[]]]; [apply Hn; exact Hx|exact Kpos].
+      + unfold mem'. rewrite map_length. exact Hml.
+      + intros u v Hu Hv E. unfold mem' in E. rewrite !lab_map in E by (rewrite Hml; assumption).
+        apply Hconn; [exact Hu|exact Hv|].
+        apply Hcclu; [apply Hmlt; exact Hu|apply Hmlt; exact Hv|exact E].
+    - destruct (IH _ _ _ _ _ _ _ r Hnext H) as [R1 [R2 [R3 R4]]].
+      split; [rewrite log_total_app in R1; cbn [entry_ l_increase] in R1; fold mem' in R1; lra|].
+      split; [|split; [exact R3|exact R4]].
+      intros Hn. apply R2. intros x Hx. apply in_app_or in Hx.
+      destruct Hx as [Hx|[<-|[]]]; [apply Hn; exact Hx|exact Kpos].
+  Qed.
+End Levels.
+
+(** * Louvain._pre_processing: the graph handed to the kernel *)
+
+Lemma stored_false_entry g i j : stored g i j = false -> entry g i j == 0.
+Proof.
+  intros H. unfold stored in H. rewrite existsb_false_iff in H. unfold entry.
+  apply rsum_zero. intros j' w Hin. specialize (H (j', w) Hin). simpl in H. rewrite H. reflexivity.
+Qed.
+
+Lemma symmetrize_length g : length (symmetrize g) = length g.
+Proof. unfold symmetrize. rewrite map_length, seq_length. reflexivity. Qed.
+
+Lemma symmetrize_wf g : wf_wgraph (symmetrize g).
+Proof.
+  intros i j w Hin. rewrite symmetrize_length.
+  destruct (Nat.lt_ge_cases i (length g)) as [Hi|Hi].
+  - unfold symmetrize in Hin. rewrite wrow_of_map_seq in Hin by exact Hi.
+    apply in_map_iff in Hin. destruct Hin as [x [E Hx]]. injection E as <- _.
+    apply filter_In in Hx. destruct Hx as [Hx _]. apply in_seq in Hx. lia.
+  - rewrite wrow_of_overflow in Hin by (rewrite symmetrize_length; exact Hi). destruct Hin.
+Qed.
+
+Lemma symmetrize_entry g i j :
+  (i < length g)%nat -> (j < length g)%nat ->
+  entry (symmetrize g) i j == entry g i j + entry g j i.
+Proof.
+  intros Hi Hj. unfold entry at 1. unfold symmetrize. rewrite wrow_of_map_seq by exact Hi.
+  rewrite (rsum_map_filter_seq (fun j0 => stored g i j0 || stored g j0 i)
+             (fun j0 => qn (entry g i j0 + entry g j0 i)) (length g)).
+  transitivity (qsum (length g) (fun j0 => ind (Nat.eqb j0 j) *
+                  (ind (stored g i j0 || stored g j0 i) * qn (entry g i j0 + entry g j0 i)))).
+  { apply qsum_ext. intros j0 _. ring. }
+  rewrite (qsum_ind (length g) j (fun j0 => ind (stored g i j0 || stored g j0 i) * qn (entry g i j0 + entry g j0 i)) Hj).
+  rewrite qn_eq. destruct (stored g i j) eqn:E1; simpl; [ring|].
+  destruct (stored g j i) eqn:E2; simpl; [ring|].
+  rewrite (stored_false_entry g i j E1), (stored_false_entry g j i E2). ring.
+Qed.
+
+Lemma scale_length g s : length (scale_graph g s) = length g.
+Proof. unfold scale_graph. apply map_length. Qed.
+
+Lemma wrow_of_scale g s i :
+  wrow_of (scale_graph g s) i = map (fun p => (fst p, qn (snd p / s))) (wrow_of g i).
+Proof.
+  unfold wrow_of, scale_graph.
+  change (@nil (nat * Q)) with (map (fun p : nat * Q => (fst p, qn (snd p / s))) []) at 1.
+  apply map_nth.
+Qed.
+
+Lemma scale_wf g s : wf_wgraph g -> wf_wgraph (scale_graph g s).
+Proof.
+  intros H i j w Hin. rewrite scale_length. rewrite wrow_of_scale in Hin.
+  apply in_map_iff in Hin. destruct Hin as [[j' w'] [E Hin]]. simpl in E. injection E as <- _.
+  exact (H i j' w' Hin).
+Qed.
+
+Lemma scale_entry g s i j : entry (scale_graph g s) i j == entry g i j / s.
+Proof.
+  unfold entry. rewrite wrow_of_scale. generalize (wrow_of g i). intros r.
+  induction r as [|[j' w] t IH]; cbn [map rsum fst snd].
+  - unfold Qdiv. ring.
+  - rewrite IH, qn_eq. unfold Qdiv. ring.
+Qed.
+
+Lemma scale_wedge g s i j : wedge (scale_graph g s) i j -> wedge g i j.
+Proof.
+  intros [w Hin]. rewrite wrow_of_scale in Hin. apply in_map_iff in Hin.
+  destruct Hin as [[j' w'] [E Hin]]. simpl in E. injection E as -> _. exists w'. exact Hin.
+Qed.
+
+Lemma symmetrize_wedge g i j :
+  wedge (symmetrize g) i j -> wedge g i j \/ wedge g j i.
+Proof.
+  intros [w Hin]. destruct (Nat.lt_ge_cases i (length g)) as [Hi|Hi].
+  - unfold symmetrize in Hin. rewrite wrow_of_map_seq in Hin by exact Hi.
+    apply in_map_iff in Hin. destruct Hin as [x [E Hx]]. injection E as -> _.
+    apply filter_In in Hx. destruct Hx as [_ Hx]. apply orb_true_iff in Hx.
+    destruct Hx as [Hx|Hx]; unfold stored in Hx; apply existsb_exists in Hx;
+      destruct Hx as [[j' w'] [Hin E]]; simpl in E; apply Nat.eqb_eq in E; subst j'.
+    + left. exists w'. exact Hin.
+    + right. exists w'. exact Hin.
+  - rewrite wrow_of_overflow in Hin by (rewrite symmetrize_length; exact Hi). destruct Hin.
+Qed.
+
+Lemma connected_mono (g g' : wgraph) :
+  (forall i j, wedge g i j -> connected g' i j) -> forall i j, connected g i j -> connected g' i j.
+Proof.
+  intros H i j C. induction C as [i|i j He|i j C IH|i j k' C1 IH1 C2 IH2].
+  - apply conn_refl.
+  - apply H. exact He.
+  - apply conn_sym. exact IH.
+  - apply conn_trans with j; assumption.
+Qed.
+
+Lemma prep_connected g s i j : connected (scale_graph (symmetrize g) s) i j -> connected g i j.
+Proof.
+  apply connected_mono. intros a b Hw. apply scale_wedge in Hw. apply symmetrize_wedge in Hw.
+  destruct Hw as [Hw|Hw]; [apply conn_edge; exact Hw|apply conn_sym, conn_edge; exact Hw].
+Qed.
+
+Lemma get_probs_length ws ps : get_probs_of ws = MOk ps -> length ps = length ws.
+Proof. intros H. apply get_probs_of_ok in H. destruct H as [_ ->]. apply map_length. Qed.
+
+Lemma make_weights_out_length wk g : length (make_weights_out wk g) = length g.
+Proof. destruct wk; simpl; [rewrite map_length, seq_length|rewrite repeat_length]; reflexivity. Qed.
+Lemma make_weights_in_length wk g : length (make_weights_in wk g) = length g.
+Proof. destruct wk; simpl; [rewrite map_length, seq_length|rewrite repeat_length]; reflexivity. Qed.
+
+Lemma node_weights_length kind g ow iw :
+  node_weights kind g = MOk (ow, iw) -> length ow = length g /\ length iw = length g.
+Proof.
+  unfold node_weights. destruct kind.
+  - destruct (get_probs_of (make_weights_out Degree g)) as [p|] eqn:E1; [|intros; discriminate].
+    destruct (get_probs_of (make_weights_in Degree g)) as [q|] eqn:E2; [|intros; discriminate].
+    intros H. assert (ow = p) by congruence. assert (iw = q) by congruence. subst.
+    rewrite (get_probs_length _ _ E1), (get_probs_length _ _ E2), make_weights_out_length, make_weights_in_length. auto.
+  - destruct (get_probs_of (make_weights_out Degree g)) as [p|] eqn:E1; [|intros; discriminate].
+    intros H. assert (ow = p) by congruence. assert (iw = p) by congruence. subst.
+    rewrite (get_probs_length _ _ E1), make_weights_out_length. auto.
+  - destruct (get_probs_of (make_weights_out Uniform g)) as [p|] eqn:E1; [|intros; discriminate].
+    intros H. assert (ow = p) by congruence. assert (iw = p) by congruence. subst.
+    rewrite (get_probs_length _ _ E1), make_weights_out_length. auto.
+Qed.
+
+(** The adjacency the estimator works on (after get_adjacency and the optional shuffle). *)
+Definition working_graph (kind : modkind) (m : wmat) (force_bipartite : bool) (index : option (list nat)) : wgraph :=
+  let g0 := fst (get_adjacency m (match kind with Dugue => true | _ => false end) force_bipartite) in
+  match index with Some ix => permute_graph g0 ix | None => g0 end.
+
+Lemma pre_processing_inv kind m fb index p :
+  pre_processing kind m fb index = MOk p ->
+  let g1 := working_graph kind m fb index in
+  exists ow iw, node_weights kind g1 = MOk (ow, iw) /\
+    p_out p = ow /\ p_in p = iw /\
+    p_adj p = scale_graph (symmetrize g1) (data_sum (symmetrize g1)).
+Proof.
+  unfold pre_processing, working_graph.
+  destruct (get_adjacency m (match kind with Dugue => true | _ => false end) fb) as [g0 bip]. cbn [fst].
+  set (g1 := match index with Some ix => permute_graph g0 ix | None => g0 end).
+  destruct (node_weights kind g1) as [[ow iw]|] eqn:E; [|intros; discriminate].
+  intros H. exists ow, iw. split; [reflexivity|].
+  assert (Ep : p = {| p_adj := scale_graph (symmetrize g1) (data_sum (symmetrize g1));
+                      p_out := ow; p_in := iw; p_bip := bip |}) by congruence.
+  subst p. auto.
+Qed.
+
+Lemma prep_level kind m fb index p res :
+  pre_processing kind m fb index = MOk p ->
+  level_inv (p_adj p) (p_out p) (p_in p) res (p_adj p) (p_out p) (p_in p) (seq 0 (length (p_adj p))) /\
+  length (p_adj p) = length (working_graph kind m fb index).
+Proof.
+  intros H. destruct (pre_processing_inv kind m fb index p H) as [ow [iw [Hnw [Ho [Hi Ha]]]]].
+  set (g1 := working_graph kind m fb index) in *.
+  destruct (node_weights_length kind g1 ow iw Hnw) as [Lo Li].
+  assert (Hlen : length (p_adj p) = length g1) by (rewrite Ha, scale_length, symmetrize_length; reflexivity).
+  split; [|exact Hlen].
+  apply level_init.
+  - rewrite Ha. apply scale_wf, symmetrize_wf.
+  - rewrite Ha. intros i j Hi' Hj'. rewrite scale_length, symmetrize_length in Hi', Hj'.
+    rewrite !scale_entry, !symmetrize_entry by assumption. unfold Qdiv. ring.
+  - rewrite Ho, Lo, Hlen. reflexivity.
+  - rewrite Hi, Li, Hlen. reflexivity.
+Qed.
+
+Lemma total_weight_symmetrize g :
+  data_sum (symmetrize g) == 2 * total_weight g.
+Proof.
+  rewrite (data_sum_spec _ (symmetrize_wf g)). unfold total_weight. rewrite symmetrize_length.
+  transitivity (qsum2 (length g) (length g) (fun i j => entry g i j + entry g j i)).
+  { apply qsum2_ext. intros i j Hi Hj. apply symmetrize_entry; assumption. }
+  rewrite qsum2_plus. unfold qsum2.
+  rewrite (qsum_swap (length g) (length g) (fun i j => entry g j i)). ring.
+Qed.
+
+(** The objective the kernel optimises is the documented objective of the modularity kind,
+    written on the working graph. *)
+Lemma prep_objective kind m fb index p res labels :
+  pre_processing kind m fb index = MOk p ->
+  let g1 := working_graph kind m fb index in
+  wf_wgraph g1 ->
+  objective (p_adj p) (p_out p) (p_in p) res labels == kind_objective kind g1 res labels.
+Proof.
+  intros H g1 Hwf. destruct (pre_processing_inv kind m fb index p H) as [ow [iw [Hnw [Ho [Hi Ha]]]]].
+  fold g1 in Hnw, Ha.
+  unfold objective, kind_objective. rewrite Ha, scale_length, symmetrize_length.
+  set (n := length g1). set (w := total_weight g1).
+  fold (qsum2 n n (fun i j => (entry (scale_graph (symmetrize g1) (data_sum (symmetrize g1))) i j
+                               - res * nthq (p_out p) i * nthq (p_in p) j) * delta labels i j)).
+  apply qsum2_ext. intros i j Hi' Hj'. apply Qmult_comp; [|reflexivity].
+  rewrite scale_entry, (symmetrize_entry g1 i j Hi' Hj'), total_weight_symmetrize. fold w.
+  apply Qplus_comp; [reflexivity|]. apply Qopp_comp. rewrite <- Qmult_assoc. apply Qmult_comp; [reflexivity|].
+  rewrite Ho, Hi. unfold node_weights in Hnw. destruct kind.
+  - destruct (get_probs_of (make_weights_out Degree g1)) as [pr|] eqn:E1; [|discriminate].
+    destruct (get_probs_of (make_weights_in Degree g1)) as [pc|] eqn:E2; [|discriminate].
+    assert (Eow : ow = pr) by congruence. assert (Eiw : iw = pc) by congruence. rewrite Eow, Eiw.
+    destruct (degree_probs_out g1 pr i Hwf E1 Hi') as [Hw Eo].
+    destruct (degree_probs_in g1 pc j E2 Hj') as [_ Ei].
+    rewrite Eo, Ei. fold w. fold w in Hw. field. intros E; rewrite E in Hw; lra.
+  - destruct (get_probs_of (make_weights_out Degree g1)) as [pr|] eqn:E1; [|discriminate].
+    assert (Eow : ow = pr) by congruence. assert (Eiw : iw = pr) by congruence. rewrite Eow, Eiw.
+    destruct (degree_probs_out g1 pr i Hwf E1 Hi') as [Hw Eo].
+    destruct (degree_probs_out g1 pr j Hwf E1 Hj') as [_ Eo'].
+    rewrite Eo, Eo'. fold w. fold w in Hw. field. intros E; rewrite E in Hw; lra.
+  - destruct (get_probs_of (make_weights_out Uniform g1)) as [pr|] eqn:E1; [|discriminate].
+    assert (Eow : ow = pr) by congruence. assert (Eiw : iw = pr) by congruence. rewrite Eow, Eiw.
+    simpl make_weights_out in E1.
+    rewrite (uniform_probs g1 pr i E1 Hi'), (uniform_probs g1 pr j E1 Hj'). fold n.
+    assert (Hn : ~ inject_Z (Z.of_nat n) == 0).
+    { intros E. unfold Qeq in E. simpl in E. lia. }
+    field. exact Hn.
+Qed.
+
+(** For the (default) Dugue kind this is the directed modularity of get_modularity's docstring. *)
+Lemma kind_objective_dugue_spec g res labels :
+  ~ total_weight g == 0 ->
+  kind_objective Dugue g res labels == spec_modularity g labels res.
+Proof.
+  intros Hw. unfold kind_objective, spec_modularity. set (n := length g). set (w := total_weight g) in *.
+  fold (qsum2 n n (fun i j => ((entry g i j + entry g j i) / (2 * w)
+           - res * (spec_out_deg g i * spec_in_deg g j / (w * w))) * delta labels i j)).
+  fold (qsum2 n n (fun i j => (entry g i j - res * spec_out_deg g i * spec_in_deg g j / w) * delta labels i j)).
+  rewrite <- qsum2_scal.
+  transitivity (qsum2 n n (fun i j => (1 / (2 * w)) * (entry g i j * delta labels i j))
+                + qsum2 n n (fun i j => (1 / (2 * w)) * (entry g j i * delta labels i j))
+                - qsum2 n n (fun i j => res * (spec_out_deg g i * spec_in_deg g j / (w * w)) * delta labels i j)).
+  { rewrite <- qsum2_plus, <- qsum2_minus. apply qsum2_ext. intros i j _ _. field. exact Hw. }
+  assert (Esw : qsum2 n n (fun i j => (1 / (2 * w)) * (entry g j i * delta labels i j))
+                == qsum2 n n (fun i j => (1 / (2 * w)) * (entry g i j * delta labels i j))).
+  { unfold qsum2. rewrite qsum_swap. apply qsum_ext. intros i _. apply qsum_ext. intros j _.
+    unfold delta. rewrite (Nat.eqb_sym (lab labels j)). reflexivity. }
+  rewrite Esw. rewrite <- qsum2_plus, <- qsum2_minus. apply qsum2_ext. intros i j _ _. field. exact Hw.
+Qed.
+
+Lemma log_total_nonneg log : log_nonneg log -> 0 <= log_total log.
+Proof.
+  unfold log_total, log_nonneg. induction log as [|x t IH]; intros H; simpl; [lra|].
+  assert (0 <= l_increase x) by (apply H; left; reflexivity).
+  assert (0 <= sumq (map l_increase t)) by (apply IH; intros y Hy; apply H; right; exact Hy). lra.
+Qed.
+
+(** * Louvain.fit: objective(final partition) - objective(singletons) = sum of the reported increases >= 0,
+      and clusters lie inside connected components of the working graph *)
+Lemma louvain_fit_core fuel kfuel kind res tol_opt tol_agg n_agg m fb index p r :
+  pre_processing kind m fb index = MOk p ->
+  louvain_loop fuel kfuel res tol_opt tol_agg n_agg (p_adj p) (p_out p) (p_in p)
+               (seq 0 (length (p_adj p))) 0 [] marg0 = MOk r ->
+  let obj := objective (p_adj p) (p_out p) (p_in p) res in
+  let g1 := working_graph kind m fb index in
+  obj (r_membership r) - obj (seq 0 (length (p_adj p))) == log_total (r_log r) /\
+  0 <= log_total (r_log r) /\
+  log_nonneg (r_log r) /\
+  length (r_membership r) = length g1 /\
+  (forall u v, (u < length g1)%nat -> (v < length g1)%nat ->
+     lab (r_membership r) u = lab (r_membership r) v -> connected g1 u v).
+Proof.
+  intros Hp Hl obj g1. destruct (prep_level kind m fb index p res Hp) as [Hlv Hlen].
+  destruct (louvain_loop_ok (p_adj p) (p_out p) (p_in p) res kfuel tol_opt tol_agg n_agg fuel
+              _ _ _ _ _ _ _ r Hlv Hl) as [R1 [R2 [R3 R4]]].
+  assert (Hnn : log_nonneg (r_log r)) by (apply R2; intros x []).
+  unfold log_total at 2 in R1. simpl in R1.
+  split; [unfold obj; lra|]. split; [apply log_total_nonneg; exact Hnn|]. split; [exact Hnn|].
+  fold g1 in Hlen. split; [rewrite R3; exact Hlen|].
+  intros u v Hu Hv E. rewrite <- Hlen in Hu, Hv.
+  specialize (R4 u v Hu Hv E).
+  destruct (pre_processing_inv kind m fb index p Hp) as [ow [iw [_ [_ [_ Ha]]]]]. fold g1 in Ha.
+  rewrite Ha in R4. exact (prep_connected g1 _ u v R4).
+Qed.
